@@ -7,8 +7,8 @@
      dot_forward_error_lemma  :  |fl(x.y) - x.y| <= gam n  Sum_i |x_i| |y_i|                                (Higham (3.5))
 
    for every length n with n u < 1.  The count n (not n+1) uses that the first addition  0 + x_0 y_0  of the loop is
-   exact ([fadd_0_l]: fadd 0 x = x, true of every correctly rounded arithmetic since x is representable; proved for
-   the instances in Proofs/RoundFlx.v and Proofs/RoundDotFloat.v).  Without that hypothesis the same statements hold
+   exact ([fadd_0_mul]: fadd 0 (fmul a b) = fmul a b, true of every correctly rounded arithmetic since a computed
+   product is representable; proved for the instances in Proofs/RoundFlx.v and Proofs/RoundDotFloat.v).  Without that hypothesis the same statements hold
    with gam (n+1): the [_pure] variants.
 
    The loop is analysed once ([sum_acc_round]: n rounded additions onto an accumulator) and reused by the
@@ -73,17 +73,17 @@ Proof using u_range fadd_ok fmul_ok.
     rewrite (proj2 (mfac_spec (x k) (y k))) at 1. ring.
 Qed.
 
-Hypothesis fadd_0_l : forall x, fadd 0 x = x.
+Hypothesis fadd_0_mul : forall a b, fadd 0 (fmul a b) = fmul a b.
 
 (* the same with the exact first addition: n factors at most (Higham (3.3)) *)
 Lemma sum_prod_round n (x y : nat -> R) :
   exists W, (forall k, (k < n)%nat -> bnd n (W k)) /\
     (sum_n (A := AR) n (fun k => fmul (x k) (y k)) : R) = Rsum n (fun k => x k * y k * W k).
-Proof using u_range fadd_ok fmul_ok fadd_0_l.
+Proof using u_range fadd_ok fmul_ok fadd_0_mul.
   destruct n as [|n].
   - exists (fun _ => 1). split; [intros; lia|reflexivity].
   - rewrite <- (sum_acc_zero (A := AR)), (sum_acc_shift (A := AR)).
-    change (add (@zero AR) (fmul (x O) (y O))) with (fadd 0 (fmul (x O) (y O))). rewrite fadd_0_l.
+    change (add (@zero AR) (fmul (x O) (y O))) with (fadd 0 (fmul (x O) (y O))). rewrite fadd_0_mul.
     destruct (sum_acc_round n (fun k => fmul (x (S k)) (y (S k))) (fmul (x O) (y O))) as (P & W & HP & HW & E).
     exists (fun k => match k with O => mfac (x O) (y O) * P | S j => mfac (x (S j)) (y (S j)) * W j end).
     split.
@@ -122,7 +122,7 @@ Theorem dot_backward_error_lemma (x y : list R) (r : R) :
   exists th : nat -> R,
     (forall k, (k < length x)%nat -> Rabs (th k) <= gam (length x)) /\
     r = Rsum (length x) (fun k => nth k x 0 * nth k y 0 * (1 + th k)).
-Proof using u_range fadd_ok fmul_ok fadd_0_l.
+Proof using u_range fadd_ok fmul_ok fadd_0_mul.
   intros Hn E. apply dot_Ok_inv in E as (L & ->).
   destruct (sum_prod_round (length x) (fun k => nth k x 0) (fun k => nth k y 0)) as (W & HW & E).
   destruct (factors_to_theta (length x) (length x) (fun k => nth k x 0 * nth k y 0) W Hn HW) as (th & Hth & E2).
@@ -134,7 +134,7 @@ Theorem dot_forward_error_lemma (x y : list R) (r : R) :
   INR (length x) * u < 1 -> dot (A := AR) x y = Ok r ->
   Rabs (r - Rsum (length x) (fun k => nth k x 0 * nth k y 0))
     <= gam (length x) * Rsum (length x) (fun k => Rabs (nth k x 0) * Rabs (nth k y 0)).
-Proof using u_range fadd_ok fmul_ok fadd_0_l.
+Proof using u_range fadd_ok fmul_ok fadd_0_mul.
   intros Hn E. destruct (dot_backward_error_lemma x y r Hn E) as (th & Hth & ->).
   rewrite <- Rsum_minus.
   rewrite (Rsum_ext _ _ (fun k => (nth k x 0 * nth k y 0) * th k)) by (intros; ring).
